@@ -951,6 +951,46 @@ def d4(ctx):
     tnodes = {cfg.ast_to_node.get(id(c)) for c in tests}
     tnodes.discard(None)
     unguarded = []
+
+    def outcome_if(cond, assumed):
+        """value of a test of the class parameter when the class is `assumed` (dict / defaultdict);
+        None when the test is about something else"""
+        if isinstance(cond, ast.Compare) and len(cond.ops) == 1:
+            l, r, op = cond.left, cond.comparators[0], cond.ops[0]
+            if is_name(r, clsp) and isinstance(op, (ast.Is, ast.IsNot, ast.Eq, ast.NotEq)):
+                l, r = r, l
+            if is_name(l, clsp):
+                if isinstance(op, (ast.Is, ast.Eq, ast.IsNot, ast.NotEq)) and isinstance(r, ast.Name) and \
+                        r.id in ('dict', 'defaultdict'):
+                    same = (r.id == assumed)
+                    return same if isinstance(op, (ast.Is, ast.Eq)) else not same
+                if isinstance(op, (ast.In, ast.NotIn)) and isinstance(r, (ast.Tuple, ast.List, ast.Set)) and \
+                        all(isinstance(e, ast.Name) for e in r.elts):
+                    names = {e.id for e in r.elts}
+                    if names <= {'dict', 'defaultdict', 'OrderedDict'}:
+                        inn = assumed in names
+                        return inn if isinstance(op, ast.In) else not inn
+        return None
+
+    def reachable_untested(rn, assumed):
+        """is the return reachable, for a class that is `assumed`, without passing a mode test?"""
+        seen = {cfg.entry.idx}
+        work = [cfg.entry.idx]
+        while work:
+            x = work.pop()
+            if x == rn:
+                return True
+            node = cfg.nodes[x]
+            for to, lab in cfg.succ[x]:
+                if to in seen or to in tnodes and to != rn:
+                    continue
+                if node.kind == 'cond' and lab in (True, False) and node.ast is not None:
+                    v = outcome_if(node.ast, assumed)
+                    if v is not None and v != lab:
+                        continue
+                seen.add(to)
+                work.append(to)
+        return False
     for r in rets:
         rn = cfg.ast_to_node.get(id(r))
         v = src(r.value)
@@ -958,8 +998,9 @@ def d4(ctx):
         # defaultdict cannot be registered in a namespace: G4 / the engine's built-in guard), are exempt
         if 'INSERTION_ORDERED' in v:
             continue
-        doms = [t for t in tnodes if cfg.dominates(t, rn)]
-        if not doms:
+        if rn in tnodes:
+            continue
+        if any(reachable_untested(rn, t) for t in ('dict', 'defaultdict')):
             # exempt only if reached before any global lookup: the namespace-specific hit
             g = [c for c in calls_under(fn) if pmatch(c, '_NODETYPE_REGISTRY.get((?n, ?c))', {'n': nsp, 'c': clsp}) is not None]
             if g and cfg.dominates(cfg.ast_to_node.get(id(g[0])), rn) and \
@@ -1107,3 +1148,147 @@ def n6(ctx):
               'a slice of an accessor is an accessor over that slice of its entries; an index is the entry',
               'PyTreeAccessor.__getitem__ does not return self.__class__(<tuple slice>) for slices and the '
               'entry for indices', mod.loc(gi))
+
+
+G9_MUTATORS = {'append', 'extend', 'pop', 'update', 'insert', 'clear', 'setdefault', 'remove', 'popitem',
+               'add', 'discard', 'appendleft', 'popleft', '__setitem__', '__delitem__', 'move_to_end'}
+G9_CONTAINER_CALLS = {'dict', 'list', 'set', 'OrderedDict', 'collections.OrderedDict', 'defaultdict',
+                      'collections.defaultdict', 'WeakKeyDictionary', 'weakref.WeakKeyDictionary',
+                      'WeakValueDictionary', 'weakref.WeakValueDictionary', 'deque', 'collections.deque'}
+G9_CXX_MUTATORS = {'emplace', 'insert', 'try_emplace', 'erase', 'clear', 'operator[]', 'insert_or_assign',
+                   'extract', 'push_back', 'emplace_back', 'assign', 'swap', 'merge', 'operator='}
+
+
+@rule('G9', floor=4, title='registry lookups answer from the live tables: no memo of answers survives a registration')
+def g9(ctx):
+    """What `register_pytree_node.get` / the engine's `Lookup` answer for (class, namespace) depends
+    on several table entries (the namespace's own, the global one, the named-tuple / struct-sequence
+    fallback), so an answer remembered under one key goes stale when *another* key is registered or
+    unregistered.  Python half: a module-level container of optree/registry.py that a function
+    without an engine registration call writes is a memo of answers; every function that changes
+    the tables must then drop it wholesale (`.clear()`, a rebinding, a loop over its keys) - a
+    removal of one key is not an invalidation.  C++ half: `Lookup` and `GetKind` (and what they
+    call inside the registry class) write no data member of the registry."""
+    pkg = ctx.py()
+    mod = pkg.mod('optree.registry')
+    containers = {}
+    for s_ in mod.tree.body:
+        tg, v = None, None
+        if isinstance(s_, ast.Assign) and len(s_.targets) == 1 and isinstance(s_.targets[0], ast.Name):
+            tg, v = s_.targets[0].id, s_.value
+        elif isinstance(s_, ast.AnnAssign) and isinstance(s_.target, ast.Name) and s_.value is not None:
+            tg, v = s_.target.id, s_.value
+        if tg is None:
+            continue
+        if isinstance(v, (ast.Dict, ast.List, ast.Set, ast.DictComp, ast.ListComp, ast.SetComp)) or \
+                (isinstance(v, ast.Call) and (call_name(v) or '') in G9_CONTAINER_CALLS):
+            containers[tg] = s_
+    ctx.require('_NODETYPE_REGISTRY' in containers, 'optree.registry: the table _NODETYPE_REGISTRY was not recognised')
+
+    def writes(fn):
+        """module-level containers the function writes -> list of (how, node); how is 'one-key',
+        'wholesale' or 'other'"""
+        out = {}
+        local = {a.arg for a in fn.args.posonlyargs + fn.args.args + fn.args.kwonlyargs}
+        for n in walk(fn):
+            if isinstance(n, ast.Name) and isinstance(n.ctx, ast.Store):
+                local.add(n.id)
+        glob = set()
+        for n in walk(fn):
+            if isinstance(n, ast.Global):
+                glob |= set(n.names)
+        for n in walk(fn):
+            name, how = None, None
+            if isinstance(n, ast.Subscript) and isinstance(n.ctx, (ast.Store, ast.Del)) and isinstance(n.value, ast.Name):
+                name, how = n.value.id, ('one-key' if isinstance(n.ctx, ast.Del) else 'store')
+            elif isinstance(n, ast.Call) and isinstance(n.func, ast.Attribute) and isinstance(n.func.value, ast.Name) \
+                    and n.func.attr in G9_MUTATORS:
+                name = n.func.value.id
+                how = 'wholesale' if n.func.attr == 'clear' else \
+                    ('one-key' if n.func.attr in ('pop', 'remove', 'discard', '__delitem__') else 'store')
+            elif isinstance(n, ast.Name) and isinstance(n.ctx, ast.Store) and n.id in glob:
+                name, how = n.id, 'wholesale'
+            if name in containers and (name not in local or name in glob):
+                out.setdefault(name, []).append((how, n))
+        return out
+    funcs = [f for f in ast.walk(mod.tree) if isinstance(f, (ast.FunctionDef, ast.AsyncFunctionDef))]
+    table_writers, per_fn = [], {}
+    for f in funcs:
+        w = writes(f)
+        per_fn[f] = w
+        engine = [c for c in calls_under(f) if (call_name(c) or '') in ('_C.register_node', '_C.unregister_node')]
+        if engine:
+            table_writers.append(f)
+    ctx.require(len(table_writers) >= 2, 'optree.registry: %d functions with an engine registration call' % len(table_writers))
+    ctx.ok('registry/table-writers', 'the registry tables are changed by: %s'
+           % ', '.join(sorted(f.name for f in table_writers)), mod.loc(table_writers[0]))
+    memos = {}
+    for f in funcs:
+        if f in table_writers:
+            continue
+        for name, ws in per_fn[f].items():
+            if any(how == 'store' for how, _ in ws):
+                memos.setdefault(name, []).append(f)
+    bad = []
+    for name, fs in sorted(memos.items()):
+        for tw in table_writers:
+            ws = per_fn[tw].get(name, [])
+            in_loop = False
+            for how, n in ws:
+                # a removal inside a loop / comprehension over the memo is a sweep, not one key
+                for anc in walk(tw):
+                    if isinstance(anc, (ast.For, ast.While, ast.ListComp, ast.DictComp, ast.SetComp, ast.GeneratorExp)) and \
+                            any(x is n for x in ast.walk(anc)):
+                        in_loop = True
+            if any(how == 'wholesale' for how, _ in ws) or in_loop:
+                continue
+            bad.append((name, fs[0], tw, ws))
+    ctx.check('registry/no-stale-memo', not bad,
+              'optree.registry keeps no memo of lookup answers beside the tables (module-level containers: %s; '
+              'written outside the registration functions: %s)' % (sorted(containers), sorted(memos) or 'none'),
+              '%s' % '; '.join(
+                  '`%s` remembers answers of %s() and %s() %s: an answer that came from the global table or '
+                  'from the named-tuple / struct-sequence fallback stays in it under every other namespace key '
+                  'after the class is registered or unregistered' % (
+                      name, f0.name, tw.name,
+                      'removes only one key of it' if ws else 'does not invalidate it')
+                  for name, f0, tw, ws in bad[:3]),
+              mod.loc(bad[0][1]) if bad else mod.loc(table_writers[0]))
+    # C++ half
+    prog = ctx.cxx()
+    rec = prog.records.get('optree::PyTreeTypeRegistry')
+    ctx.require(rec is not None, 'record PyTreeTypeRegistry not found')
+    members = {n for n, t, h in rec.fields} | {n for n, t in rec.static_vars}
+    ctx.require(len(members) >= 3, 'PyTreeTypeRegistry: %d data members recognised' % len(members))
+    roots = [f for nm in ('PyTreeTypeRegistry::Lookup', 'PyTreeTypeRegistry::GetKind')
+             for f in prog.by_suffix(nm) if not f.dependent]
+    ctx.require(len(roots) >= 4, 'Lookup / GetKind: %d instantiations' % len(roots))
+    seen, work = {}, list(roots)
+    while work:
+        f = work.pop()
+        if f.key in seen or f.body is None:
+            continue
+        seen[f.key] = f
+        for k in prog.callees(f):
+            g = prog.funcs.get(k)
+            if g is not None and g.record == 'optree::PyTreeTypeRegistry' and g.key not in seen and not g.dependent:
+                work.append(g)
+    for f in sorted(seen.values(), key=lambda x: (x.file or '', x.line or 0, x.targs)):
+        hits = []
+        for c in calls_in(f.body, G9_CXX_MUTATORS, into_lambdas=True):
+            b = c.call_base() if c.callee_name() != 'operator=' else (c.kids[1] if len(c.kids) > 1 else None)
+            p = member_path(b) or ''
+            if p.split('.')[-1] in members or (p.split('.')[0] in members):
+                hits.append((c, p))
+        for n in f.body.walk(True):
+            if n.kind in ('BinaryOperator', 'CompoundAssignOperator') and (n.op == '=' or n.kind == 'CompoundAssignOperator') \
+                    and n.kids:
+                p = member_path(n.kids[0]) or ''
+                if p.split('.')[-1] in members or p.split('.')[0] in members:
+                    hits.append((n, p))
+        ctx.check('%s/reads-only' % short(f), not hits,
+                  '%s: the lookup path writes no data member of the registry' % inst(f),
+                  '%s writes the registry member `%s` (%s): an answer kept there is not dropped when another '
+                  'key of the tables changes' % (inst(f), hits[0][1] if hits else '',
+                                               hits[0][0].callee_name() if hits and hits[0][0].kind != 'BinaryOperator' else '='),
+                  hits[0][0].loc if hits else f.loc)
